@@ -321,4 +321,63 @@ theorem branch_agrees {vw vh dx dy : F32} (hvw : FP vw) (hvh : FP vh) (hdx : FP 
   refine ⟨R.sound, fun hb _ => ?_⟩
   exact le_trans R.hR.1 (le_trans (R.near hb) R.hC.2)
 
+/-! ## slice: how the float size compares with the target (for exact covering) -/
+
+/-- the rounded quotient against the quotient by the ROUNDED ratio -/
+theorem lemA_raw {dx R : F32} {ρ : ℚ} (fdx : Fn dx) (pdx : 0 < val dx) (fR : Fn R) (hρ : 0 < ρ)
+    (hR : Within (1 - u) (1 + u) (val R) ρ) (hn : NR (val dx / ρ)) :
+    Fn (dx / R) ∧ 0 < val R ∧ Within (1 - u) (1 + u) (val (dx / R)) (val dx / val R) := by
+  have pR : 0 < val R := hR.pos (by unfold u; norm_num) hρ
+  have hq : Within (1 / (1 + u)) (1 / (1 - u)) (val dx / val R) (val dx / ρ) :=
+    Within.div (Within.rfl' _) hR (by norm_num) (by unfold u; norm_num) (by unfold u; norm_num) pdx.le hρ
+  obtain ⟨r1, r2⟩ := range_of_within hq hn (by unfold u; norm_num) (by unfold u; norm_num)
+  obtain ⟨f, hw⟩ := div_within fdx fR pdx pR r1 r2
+  exact ⟨f, pR, hw⟩
+
+/-- **branch `dx/dy < vbAR`** (only finiteness is used): the float width `rnd(dy·vbAR)` is at least `dx` —
+    `rnd(dx/dy) < vbAR` forces `dx/dy ≤ vbAR`, hence `dx ≤ dy·vbAR`, and rounding is monotone with `dx`
+    representable -/
+theorem slice_w_ge {dx dy R : F32} (hdx : FP dx) (hdy : FP dy) (fR : Fn R) (fC : Fn (dx / dy))
+    (fw : Fn (dy * R)) (hb : dx / dy < R) : val dx ≤ val (dy * R) := by
+  have hle : val dx / val dy ≤ val R := by
+    by_contra hc
+    have := Rnd_le_val _ _ R.nb (dx / dy).nb (Rnd_val fR) (div_nb hdx.1 hdy.1 (ne_of_gt hdy.2)) fR fC
+      (le_of_lt (not_le.1 hc))
+    exact absurd ((lt_iff_val fC fR).1 hb) (not_lt.2 this)
+  rw [div_le_iff₀ hdy.2] at hle
+  exact Rnd_ge_repr _ _ dx.nb (mul_nb hdy.1 fR) fw (nb_lt dx) hdx.1 (by show val dx ≤ _; linarith)
+
+/-- **the other branch**: the float height `rnd(dx/vbAR)` can be below `dy` only by the two roundings of the
+    branch test and of the quotient: `(1 − 2u)·dy ≤ rnd(dx/vbAR)` -/
+theorem slice_h_near {vw vh dx dy : F32} (hvw : FP vw) (hvh : FP vh) (hdx : FP dx) (hdy : FP dy)
+    (hr : InRange (val vw) (val vh) (val dx) (val dy)) (hb : ¬ dx / dy < vw / vh) :
+    Fn (dx / (vw / vh)) ∧ (1 - 2 * u) * val dy ≤ val (dx / (vw / vh)) := by
+  have R := ratios hvw hvh hdx hdy hr
+  have pr : 0 < val vw / val vh := div_pos hvw.2 hvh.2
+  have pc : 0 < val dx / val dy := div_pos hdx.2 hdy.2
+  have hRC := R.near hb
+  have hraw : Fn (dx / (vw / vh)) ∧ 0 < val (vw / vh) ∧
+      Within (1 - u) (1 + u) (val (dx / (vw / vh))) (val dx / val (vw / vh)) := by
+    by_cases hlt : val dx / val dy < val vw / val vh
+    · obtain ⟨n1, _⟩ := near_ratios pc R.hR R.hC hlt hRC
+      exact lemA_raw hdx.1 hdx.2 R.fR pc n1 (by rw [dx_div_c hdx.2 hdy.2]; exact hr.ty)
+    · exact lemA_raw hdx.1 hdx.2 R.fR pr R.hR hr.fh
+  obtain ⟨f, pR, hw⟩ := hraw
+  refine ⟨f, ?_⟩
+  have h1 : val (vw / vh) * val dy ≤ (1 + u) * val dx := by
+    have := le_trans hRC R.hC.2
+    have h2 := mul_le_mul_of_nonneg_right this hdy.2.le
+    have e : (1 + u) * (val dx / val dy) * val dy = (1 + u) * val dx := by
+      have := ne_of_gt hdy.2; field_simp
+    linarith
+  have h2 : val dy / (1 + u) ≤ val dx / val (vw / vh) := by
+    rw [div_le_div_iff₀ (by unfold u; norm_num) pR]; linarith
+  have h3 := hw.1
+  have h4 : (1 - 2 * u) * val dy ≤ (1 - u) * (val dy / (1 + u)) := by
+    have hd := hdy.2
+    rw [mul_div_assoc', le_div_iff₀ (by unfold u; norm_num)]
+    unfold u; nlinarith
+  have h5 := mul_le_mul_of_nonneg_left h2 (by unfold u; norm_num : (0:ℚ) ≤ 1 - u)
+  linarith
+
 end Ivg.Fit32
